@@ -239,6 +239,12 @@ def names_of(libname, decl_index):
                         for ci in containers:
                             table[ci].setdefault("f-iface", set()).add(fmt.F_C_name)
             for en in getattr(node, "enums", []):
+                eidx = [i_ for i_, dt in enumerate(decls) if re.match(r"^enum\s+(?:class\s+|struct\s+)?%s\b" % re.escape(en.name), dt)]
+                if len(eidx) == 1:
+                    # the enumeration's own switches: its enumerators in the C header / Fortran module
+                    for mname, mfmt in getattr(en, "_fmtmembers", {}).items():
+                        table[eidx[0]].setdefault("c-enumerator", set()).add(mfmt.C_enum_member)
+                        table[eidx[0]].setdefault("f-enumerator", set()).add(mfmt.F_enum_member)
                 for mname, mfmt in getattr(en, "_fmtmembers", {}).items():
                     for ci in containers:
                         table[ci].setdefault("c-inside", set()).add(mfmt.C_enum_member)
@@ -370,6 +376,17 @@ def check_run(libname, wrap_c, wrap_f, decl_index, decl_cf, cfg, res):
             for nm in mine.get("c-type", []):
                 if re.search(r"\b%s\b" % re.escape(nm), ctext0):
                     return "declaration %r has wrap_c off but its C type %s appears in the C output" % (dtext, nm)
+        if not dflag["c"] and not dflag["fortran"]:
+            # an enumeration whose C wrapper is off: its enumerators are not defined in the C header
+            ctext1 = "\n".join(t for f, t in files.items() if kind_of(f) == "c")
+            for nm in mine.get("c-enumerator", []):
+                if re.search(r"\b%s\b" % re.escape(nm), ctext1):
+                    return "enumeration %r has wrap_c off but its enumerator %s is defined in the C output" % (dtext, nm)
+        if not dflag["fortran"]:
+            ftext1 = "\n".join(t for f, t in files.items() if kind_of(f) == "fortran")
+            for nm in mine.get("f-enumerator", []):
+                if re.search(r"(?im)^\s*integer\(C_INT\), parameter :: %s\b" % re.escape(nm), ftext1):
+                    return "enumeration %r has wrap_fortran off but its enumerator %s is a parameter of the Fortran module" % (dtext, nm)
         if not dflag["c"] and not dflag["fortran"]:
             # a container (namespace / class) whose C wrapper is off: nothing declared inside it may reach the C output
             ctext = "\n".join(t for f, t in files.items() if kind_of(f) == "c")
